@@ -2083,7 +2083,19 @@ func (db *DB) CommitJournal(ctx context.Context, mode JournalMode) (err error) {
 		TraceLog.Printf("[CommitJournalPage(%s)]: pgno=%d chksum=%s %s", db.name, pgno, pageChksum, errorKeyValue(err))
 	}
 
-	// Remove all checksums after last page.
+	// Remove all checksums after last page. If the commit fails further down
+	// (e.g. the primary refuses the forwarded transaction) SQLite rolls the
+	// transaction back and those pages are still part of the database.
+	removedChksums := make(map[uint32]ltx.Checksum)
+	defer func() {
+		if err != nil {
+			db.chksums.mu.Lock()
+			defer db.chksums.mu.Unlock()
+			for pgno, chksum := range removedChksums {
+				db.setDatabasePageChecksum(pgno, chksum)
+			}
+		}
+	}()
 	func() {
 		db.chksums.mu.Lock()
 		defer db.chksums.mu.Unlock()
@@ -2098,6 +2110,7 @@ func (db *DB) CommitJournal(ctx context.Context, mode JournalMode) (err error) {
 			}
 
 			pageChksum, _ := db.pageChecksum(pgno, db.PageN(), nil)
+			removedChksums[pgno] = db.chksums.pages[i]
 			db.setDatabasePageChecksum(pgno, 0)
 			TraceLog.Printf("[CommitJournalRemovePage(%s)]: pgno=%d chksum=%s %s", db.name, pgno, pageChksum, errorKeyValue(err))
 		}
